@@ -139,4 +139,15 @@ CHECKS = {
              "thorough": {"checks": 2500, "shards": 8, "timeout": "120m", "env": {"VERIF_C07_RL_ONE_IN": 25, "VERIF_C07_RL_CYCLES": 2}}},
         ],
     },
+    "C13": {
+        "level": "exploration",
+        "assumptions": EXPLORATION_ASSUMPTIONS + ["the model IRC network (harness/model/ircnet.go) defines 'conformant': it emits only what a server sends to this client, answers the client's MODE/WHO requests in lock-step, and keeps a separate record of what the protocol has revealed",
+                                                  "not compared: user modes of any nick (WHO flags are outside the claim)"],
+        "legs": [
+            {"test": "TestC13", "quick": {"checks": 400, "timeout": "15m"},
+             "thorough": {"checks": 4000, "shards": 4, "timeout": "60m"}},
+            {"test": "TestC13_Arbitrary", "quick": {"checks": 400, "timeout": "15m"},
+             "thorough": {"checks": 4000, "shards": 4, "timeout": "60m"}},
+        ],
+    },
 }
